@@ -1,6 +1,7 @@
 package main
 
 import (
+	"sort"
 	"fmt"
 	"go/token"
 	"go/types"
@@ -215,6 +216,15 @@ func c11Serve(p *Prog, r *Report) {
 		if getB == nil || sel == nil || stick == nil || down == nil {
 			r.Anchor("C11.R3", sn+": cookie lookup, selection, StickBackend, downstream call", fmt.Sprintf("GetBackend=%v NextServer=%v StickBackend=%v downstream=%v", getB != nil, sel != nil, stick != nil, down != nil))
 			continue
+		}
+		// the candidates for pinning and the servers the normal selection draws from are one pool
+		if len(getB.Common().Args) >= 3 {
+			cand := poolLabelsOfValue(p, fn, getB.Common().Args[2], 0)
+			selL := poolLabelsOfCall(p, fn, sel, 0)
+			r.Paths++
+			r.Check(len(cand) > 0 && sameStringSet(cand, selL), "C11.R3", sn+": the cookie is matched against the pool the selection draws from", p.InstrPos(getB),
+				"both come from "+strings.Join(setKeys(cand), ","), "the candidate list given to the cookie lookup comes from {"+strings.Join(setKeys(cand), ",")+"} while the normal selection draws from {"+strings.Join(setKeys(selL), ",")+
+					"}: a server known to only one of them gets a cookie that is never honoured, or keeps being pinned after it left the pool")
 		}
 		// no return / error response between the lookup and (selection | downstream)
 		stop := func(in ssa.Instruction) bool { return in == ssa.Instruction(sel) || in == down }
@@ -499,4 +509,112 @@ func mutantsC11() []Mutant {
 		{Name: "nocookie-is-error", File: "roundrobin/stickysessions.go", Old: "\t\tif errors.Is(err, http.ErrNoCookie) {\n\t\t\treturn nil, false, nil\n\t\t}\n", New: "", More: []Edit{{"roundrobin/stickysessions.go", "\t\"errors\"\n", ""}}, Expect: "C11.R4"},
 		{Name: "aes-expiry-inverted", File: sc + "aes_value.go", Old: "\t\tif clock.Now().UTC().After(clock.Unix(i, 0).UTC()) {", New: "\t\tif clock.Now().UTC().Before(clock.Unix(i, 0).UTC()) {", Expect: "C11.R4"},
 	}
+}
+
+
+// ---- pool provenance ----
+
+func sameStringSet(a, b map[string]bool) bool {
+	if len(a) != len(b) {
+		return false
+	}
+	for k := range a {
+		if !b[k] {
+			return false
+		}
+	}
+	return true
+}
+
+func setKeys(m map[string]bool) []string {
+	var out []string
+	for k := range m {
+		out = append(out, k)
+	}
+	sort.Strings(out)
+	return out
+}
+
+// recvFieldOf: v is a load of field F of fn's receiver -> F.
+func recvFieldOf(fn *ssa.Function, v ssa.Value) (string, bool) {
+	u, ok := stripConv(v).(*ssa.UnOp)
+	if !ok || len(fn.Params) == 0 {
+		return "", false
+	}
+	_, name, base, ok := fieldOf(u.X)
+	if !ok || base != ssa.Value(fn.Params[0]) {
+		return "", false
+	}
+	return name, true
+}
+
+// poolLabelsOfCall names where a server list / a selected server comes from: "via:<field>" when the
+// call is delegated to an object held in a receiver field, "field:<name>" for every slice-typed
+// receiver field read by the (same-receiver, statically resolved) callee.
+func poolLabelsOfCall(p *Prog, fn *ssa.Function, call *ssa.Call, d int) map[string]bool {
+	out := map[string]bool{}
+	cc := call.Common()
+	if cc.IsInvoke() {
+		if f, ok := recvFieldOf(fn, cc.Value); ok {
+			out["via:"+f] = true
+		} else {
+			out["via:?"] = true
+		}
+		return out
+	}
+	callee := cc.StaticCallee()
+	if callee == nil || !p.InModule(callee) || callee.Blocks == nil || d > 4 {
+		out["?"] = true
+		return out
+	}
+	if len(cc.Args) == 0 || len(fn.Params) == 0 || stripConv(cc.Args[0]) != ssa.Value(fn.Params[0]) {
+		if f, ok := recvFieldOf(fn, cc.Args[0]); ok {
+			out["via:"+f] = true
+			return out
+		}
+		out["?"] = true
+		return out
+	}
+	// same receiver: look inside
+	for _, b := range callee.Blocks {
+		for _, in := range b.Instrs {
+			switch x := in.(type) {
+			case *ssa.UnOp:
+				if f, ok := recvFieldOf(callee, x); ok {
+					if _, isSl := x.Type().Underlying().(*types.Slice); isSl {
+						out["field:"+f] = true
+					}
+				}
+			case *ssa.Call:
+				if _, isB := x.Common().Value.(*ssa.Builtin); isB || isLoggerCall(x) {
+					continue
+				}
+				if x.Common().IsInvoke() {
+					if f, ok := recvFieldOf(callee, x.Common().Value); ok && isHTTPHandlerType(x.Common().Value.Type()) == false {
+						if m := x.Common().Method.Name(); m == "Servers" || m == "NextServer" {
+							out["via:"+f] = true
+						}
+					}
+					continue
+				}
+				if sc := x.Common().StaticCallee(); sc != nil && p.InModule(sc) && len(x.Common().Args) > 0 && stripConv(x.Common().Args[0]) == ssa.Value(callee.Params[0]) {
+					for k := range poolLabelsOfCall(p, callee, x, d+1) {
+						out[k] = true
+					}
+				}
+			}
+		}
+	}
+	return out
+}
+
+func poolLabelsOfValue(p *Prog, fn *ssa.Function, v ssa.Value, d int) map[string]bool {
+	v = stripConv(v)
+	if c, ok := v.(*ssa.Call); ok {
+		return poolLabelsOfCall(p, fn, c, d)
+	}
+	if f, ok := recvFieldOf(fn, v); ok {
+		return map[string]bool{"field:" + f: true}
+	}
+	return map[string]bool{"?": true}
 }
